@@ -57,7 +57,9 @@ fn build(d: &FileDesc) -> Vec<u8> {
             o.insert((1, 0), Object::Dictionary(dict(vec![("Type", Object::Name(b"Catalog".to_vec()))])));
             if d.streams {
                 o.insert((7, 0), Object::Stream(Stream::new(dict(vec![("K", Object::Integer(7))]), b"deferred length body".to_vec())));
-                o.insert((8, 0), Object::Stream(Stream::new(Dictionary::new(), vec![])));
+                // a genuinely empty stream with a direct /Length 0 (its deferred read fails) next to
+                // streams whose length is deferred: the order of the list matters to a sloppy loop
+                o.insert((8, 0), Object::Stream(Stream::new(dict(vec![("VerifDirectLength", Object::Boolean(true))]), vec![])));
                 o.insert((9, 0), Object::Stream(Stream::new(dict(vec![("K", Object::Integer(9))]), b"second deferred".to_vec())));
             }
         }
@@ -159,6 +161,74 @@ fn explore_file(bytes: &[u8]) -> (BTreeMap<u64, (u64, u64)>, u64, usize, usize) 
         }
     }
     (outcomes, loads, k, z)
+}
+
+fn wrap_object(body: &[u8]) -> Vec<u8> {
+    let mut f = b"%PDF-1.4\n".to_vec();
+    let off = f.len();
+    f.extend_from_slice(b"1 0 obj\n");
+    f.extend_from_slice(body);
+    f.extend_from_slice(b"\nendobj\n");
+    let x = f.len();
+    f.extend_from_slice(format!("xref\n0 2\n0000000000 65535 f \n{:010} 00000 n \ntrailer\n<</Size 2/Root 1 0 R/Deep ", off).as_bytes());
+    f.extend_from_slice(body);
+    f.extend_from_slice(format!(">>\nstartxref\n{}\n%%EOF", x).as_bytes());
+    f
+}
+
+/// a valid file with arrays nested `d` deep, in an object and in the trailer
+fn deep_file(d: usize) -> Vec<u8> {
+    let mut b = vec![b'['; d];
+    b.extend_from_slice(b"1");
+    b.extend(vec![b']'; d]);
+    wrap_object(&b)
+}
+
+fn hostile_inputs() -> Vec<Vec<u8>> {
+    let mut v = vec![deep_file(140), deep_file(129), deep_file(5000)];
+    let mut dd = vec![];
+    for _ in 0..200 {
+        dd.extend_from_slice(b"<</A");
+    }
+    v.push(wrap_object(&dd));
+    v.push(b"%PDF-1.4\n1 0 obj\n(unterminated\nendobj\nstartxref\n9\n%%EOF".to_vec());
+    v.push(b"garbage".to_vec());
+    let mut t = deep_file(10);
+    t.truncate(t.len() - 30);
+    v.push(t);
+    v
+}
+
+/// classic table whose slots 3..3+n hold one copy and slots 41.. point at second copies that
+/// still carry the numbers 3..3+n
+fn misnumbered_file(n: usize) -> Vec<u8> {
+    let mut f = b"%PDF-1.4\n".to_vec();
+    let mut offs: BTreeMap<u32, usize> = BTreeMap::new();
+    let mut put = |f: &mut Vec<u8>, slot: u32, num: u32, body: String| {
+        offs.insert(slot, f.len());
+        f.extend_from_slice(format!("{} 0 obj\n{}\nendobj\n", num, body).as_bytes());
+    };
+    put(&mut f, 1, 1, "<</Type/Catalog/Pages 2 0 R>>".into());
+    put(&mut f, 2, 2, "<</Type/Pages/Kids[]/Count 0>>".into());
+    for k in 0..n as u32 {
+        // padding makes the first copies slow to parse so that workers really interleave
+        let pad: String = (0..400).map(|i| format!("/K{} {}", i, i)).collect();
+        put(&mut f, 3 + k, 3 + k, format!("<</Rev/Old/N {} {}>>", k, pad));
+    }
+    for k in 0..n as u32 {
+        put(&mut f, 41 + k, 3 + k, format!("<</Rev/New/N {}>>", k));
+    }
+    let x = f.len();
+    let max = 41 + n as u32;
+    f.extend_from_slice(format!("xref\n0 {}\n0000000000 65535 f \n", max).as_bytes());
+    for slot in 1..max {
+        match offs.get(&slot) {
+            Some(o) => f.extend_from_slice(format!("{:010} 00000 n \n", o).as_bytes()),
+            None => f.extend_from_slice(b"0000000000 00000 f \n"),
+        }
+    }
+    f.extend_from_slice(format!("trailer\n<</Size {}/Root 1 0 R>>\nstartxref\n{}\n%%EOF", max, x).as_bytes());
+    f
 }
 
 fn schedule_tree_nodes(k: usize) -> u64 {
@@ -275,7 +345,67 @@ fn main() {
             }
         }
     }
+    // files whose cross-reference table has two in-use slots that lead to copies of the same object
+    // (the second slot points at a copy that still carries the old number): which copy survives must
+    // not depend on the pool (supplementary sampling, the hook does not control this order)
+    {
+        let f = misnumbered_file(8);
+        let reference = rayon::ThreadPoolBuilder::new().num_threads(1).build().unwrap().install(|| digest_of(&load_with(&f, MergeOrder::Passthrough)).0);
+        for threads in [2usize, 3, 4, 8, 16] {
+            let pool = rayon::ThreadPoolBuilder::new().num_threads(threads).build().unwrap();
+            let mut seen = BTreeSet::new();
+            let reps = if run.thorough { 200 } else { 60 };
+            for _ in 0..reps {
+                seen.insert(pool.install(|| digest_of(&load_with(&f, MergeOrder::Passthrough)).0));
+                free_loads += 1;
+            }
+            if seen.len() != 1 || !seen.contains(&reference) {
+                run.fail(
+                    None,
+                    json!({"file": "misnumbered xref: 8 slots pointing at second copies", "free_running_threads": threads, "hex": vharness::objjson::hex(&f)}),
+                    &format!("{} distinct documents in {} free-running loads on {} threads (1-thread reference {:016x})", seen.len(), reps, threads, reference),
+                    "the same document on every load, equal to the single-thread result",
+                );
+            }
+        }
+    }
     run.set("supplementary_free_running_loads_SAMPLING", json!(free_loads));
+    // history independence: loading the same bytes gives the same document whatever was loaded
+    // before on the same thread (rejected inputs must not leave state behind)
+    {
+        let hostile: Vec<Vec<u8>> = hostile_inputs();
+        let subjects: Vec<Vec<u8>> = vec![deep_file(120), deep_file(60), build(&fl[fl.len() / 2]), build(&fl[1])];
+        let mut hist_loads = 0u64;
+        let pool1 = rayon::ThreadPoolBuilder::new().num_threads(1).build().unwrap();
+        for (si, subj) in subjects.iter().enumerate() {
+            for (pname, pool) in [("calling-thread+global-pool", None), ("single-thread-pool", Some(&pool1))] {
+                let load = |b: &[u8]| -> (u64, String) {
+                    match pool {
+                        Some(p) => p.install(|| digest_of(&load_with(b, MergeOrder::Sorted))),
+                        None => digest_of(&load_with(b, MergeOrder::Sorted)),
+                    }
+                };
+                let first = load(subj);
+                for (hi, h) in hostile.iter().enumerate() {
+                    for rep in 0..40 {
+                        let _ = load(h);
+                        let again = load(subj);
+                        hist_loads += 2;
+                        if again.0 != first.0 {
+                            run.fail(
+                                None,
+                                json!({"history": {"subject": si, "hostile": hi, "repetitions": rep + 1, "pool": pname}}),
+                                &format!("after {} loads of hostile input #{} the same bytes load differently ({})", rep + 1, hi, again.1),
+                                "loading the same bytes always produces the same document",
+                            );
+                            break;
+                        }
+                    }
+                }
+            }
+        }
+        run.set("history_independence_loads", json!(hist_loads));
+    }
     run.exhaustive(true);
     run.finish();
 }
